@@ -64,3 +64,37 @@ theorem sat_of_isSolution {cnf : CNF} {a : List (Nat × Bool)} (h : isSolution c
   · cases hs
 
 end Holpy.C15
+
+namespace Holpy.C15
+
+theorem rebuild_prefix : ∀ (ps : List (Nat × List Nat)) (c c' : CNF), rebuild c ps = some c' →
+    ∃ ext, c' = c ++ ext := by
+  intro ps
+  induction ps with
+  | nil => intro c c' h; simp only [rebuild, Option.some.injEq] at h; exact ⟨[], by simp [h]⟩
+  | cons x xs ih =>
+    intro c c' h
+    obtain ⟨i, p⟩ := x
+    unfold rebuild at h
+    split at h
+    · split at h
+      · rename_i r _
+        obtain ⟨ext, he⟩ := ih _ _ h
+        exact ⟨[r] ++ ext, by simp [he]⟩
+      · cases h
+    · cases h
+
+theorem checkProofs_unsat {cnf : CNF} {ps : List (Nat × List Nat)} (h : checkProofs cnf ps = true) :
+    ¬ ∃ σ, Sat σ cnf := by
+  unfold checkProofs at h
+  split at h
+  · rename_i c hc
+    obtain ⟨ext, he⟩ := rebuild_prefix _ _ _ hc
+    have := checkTrace_unsat h
+    rw [he, List.take_append_of_le_length (by simp)] at this
+    rw [List.take_of_length_le (by simp)] at this
+    rintro ⟨σ, hσ⟩
+    exact this ⟨σ, sat_map_dedup.mpr hσ⟩
+  · cases h
+
+end Holpy.C15
